@@ -106,21 +106,15 @@ Lemma stale_reason :
   /\ conf_ver after - conf_ver stale_region = 2.
 Proof. vm_compute. repeat split; reflexivity. Qed.
 
-(* ---------- refutation: S2, the over-count of an unapplied ChangePeerV2Leave ---------- *)
+(* ---------- S2 repaired: an unapplied ChangePeerV2Leave with pending demotions counts nothing ---------- *)
 Definition s2_region : region := Region [Peer 1 101 Voter; Peer 2 102 Demoting; Peer 3 103 Demoting] 1 7 1.
 Definition s2_step : step := ChangePeerV2Leave [] [(2, 102); (3, 103)].
 
-Lemma s2_overcount :
-  is_finish s2_region s2_step = false /\ check_safety s2_region s2_step = None /\ conf_ver_changed s2_region s2_step = 2.
+Lemma s2_counts_nothing :
+  is_finish s2_region s2_step = false /\ check_safety s2_region s2_step = None /\ conf_ver_changed s2_region s2_step = 0.
 Proof. vm_compute. repeat split; reflexivity. Qed.
 
-(* with peer ids equal to store ids (as PD's unit tests build regions) the same step counts 0 *)
-Lemma s2_hidden_when_ids_coincide :
-  conf_ver_changed (Region [Peer 1 1 Voter; Peer 2 2 Demoting; Peer 3 3 Demoting] 1 7 1) (ChangePeerV2Leave [] [(2, 2); (3, 3)]) = 0.
-Proof. vm_compute. reflexivity. Qed.
-
-(* the over-count cannot hide a foreign change in the closed system: while the region is in a joint state
-   the stores refuse every configuration change except leaving *)
+(* while the region is in a joint state the stores refuse every configuration change except leaving *)
 Lemma joint_state_admits_only_leave r t p : is_in_joint r = true -> apply_cmd r (CChangePeer t p) = None.
 Proof. intros H. unfold apply_cmd. destruct p; [rewrite H|]; reflexivity. Qed.
 
